@@ -107,6 +107,8 @@ type Stor struct {
 	// Before, when set, is called before every mutating operation is applied (with mu held): the
 	// place to take crash images.
 	Before func(s *Stor, op Op)
+	// ListOrder: 0 ascending by (type, number), 1 descending, 2 a fixed scrambled order.
+	ListOrder int
 	// Delay, when set, is asked (outside the lock) how many milliseconds to stall an operation.
 	Delay func(k Kind, fd storage.FileDesc) int
 	// LogLines collects storage.Log lines when non-nil.
@@ -215,6 +217,16 @@ func (s *Stor) List(ft storage.FileType) ([]storage.FileDesc, error) {
 		}
 		return fds[i].Num < fds[j].Num
 	})
+	// the Storage contract promises no order
+	switch s.ListOrder {
+	case 1:
+		for i, j := 0, len(fds)-1; i < j; i, j = i+1, j-1 {
+			fds[i], fds[j] = fds[j], fds[i]
+		}
+	case 2:
+		h := func(fd storage.FileDesc) uint32 { return uint32(fd.Num)*2654435761 ^ uint32(fd.Type)*40503 }
+		sort.Slice(fds, func(i, j int) bool { return h(fds[i]) < h(fds[j]) })
+	}
 	return fds, nil
 }
 
@@ -268,6 +280,11 @@ type writer struct {
 }
 
 func (w *writer) Write(p []byte) (int, error) {
+	if d := w.s.Delay; d != nil {
+		if ms := d(OpWrite, w.fd); ms > 0 {
+			time.Sleep(time.Duration(ms) * time.Millisecond)
+		}
+	}
 	w.s.mu.Lock()
 	defer w.s.mu.Unlock()
 	_, m := w.s.pre(OpWrite, w.fd, len(p))
@@ -282,6 +299,11 @@ func (w *writer) Write(p []byte) (int, error) {
 }
 
 func (w *writer) Sync() error {
+	if d := w.s.Delay; d != nil {
+		if ms := d(OpSync, w.fd); ms > 0 {
+			time.Sleep(time.Duration(ms) * time.Millisecond)
+		}
+	}
 	w.s.mu.Lock()
 	defer w.s.mu.Unlock()
 	_, m := w.s.pre(OpSync, w.fd, 0)
@@ -466,6 +488,7 @@ func (s *Stor) Image(r *rng.R) *Stor {
 
 func (s *Stor) imageLocked(r *rng.R) *Stor {
 	n := New()
+	n.ListOrder = s.ListOrder
 	n.meta, n.hasMeta = s.meta, s.hasMeta
 	// deterministic order
 	fds := make([]storage.FileDesc, 0, len(s.files))
